@@ -111,6 +111,8 @@ def data_layout(real_events: list[dict], recipe: dict) -> list[tuple[int, int]]:
     for i, e in enumerate(recipe["inits"]):
         if "share_with" in e:
             e = recipe["inits"][e["share_with"]]
+        if e["dtype"] == "STRING":
+            continue
         bits = models._itemsize_bits(e["dtype"])
         n = 1
         for d in e["shape"]:
